@@ -18,6 +18,8 @@ def gen_config(kind, rng: random.Random, thorough=False):
         ndim = rng.choice([1, 2, 2, 3])
         fam = rng.choice(WAVELETS_ORTHO + ([rng.choice(WAVELETS_BIORTHO)] if rng.random() < 0.3 else []))
         shape = [rng.choice([4, 6, 8]) if ndim < 3 else rng.choice([4, 6]) for _ in range(ndim)]
+        if ndim == 3 and fam == 'dmey':
+            fam = 'bior2.2'  # dmey has 62 taps: a 3-D transform of a 6^3 volume has 280 000 coefficients (dense tests would need 100s of GB)
         return {'kind': kind, 'wavelet': fam, 'domain': shape, 'level': rng.choice([None, 1, 1, 2]), 'batch': rng.choice([0, 2]),
                 # where the transformed axes sit: after the batch axis (negative dims), before it (non-negative dims), around it
                 'layout': rng.choice(['trailing', 'trailing', 'leading', 'mixed']), 'seed': seed}
